@@ -9,6 +9,7 @@ pub mod c03;
 pub mod c04;
 pub mod c05;
 pub mod c06;
+pub mod c07;
 pub mod c08;
 pub mod c09;
 pub mod c10;
@@ -27,6 +28,7 @@ const TABLE: &[(&str, RunFn, ReplayFn)] = &[
     ("C04", c04::run, c04::replay),
     ("C05", c05::run, c05::replay),
     ("C06", c06::run, c06::replay),
+    ("C07", c07::run, c07::replay),
     ("C08", c08::run, c08::replay),
     ("C09", c09::run, c09::replay),
     ("C10", c10::run, c10::replay),
@@ -42,6 +44,7 @@ const TABLE: &[(&str, RunFn, ReplayFn)] = &[
 pub fn case_fn(pid: &str, part: &str) -> Option<crate::isolate::CaseFn> {
     match (pid, part) {
         ("C17", "graphs") => Some(c17::run_case),
+        ("C07", "inputs") => Some(c07::run_case),
         _ => None,
     }
 }
